@@ -68,7 +68,7 @@ func (t *Tag) Scan(src interface{}) error {
 type Meta struct{ N int }
 
 // Rec is the gorm model. c and d are nullable, k has a custom Scanner/Valuer
-// type, m_n comes from an embedded struct.
+// type, for_n comes from an embedded struct.
 type Rec struct {
 	ID uint `gorm:"primaryKey"`
 	A  int
@@ -76,15 +76,15 @@ type Rec struct {
 	S  string
 	C  *int
 	D  sql.NullString
-	K  Tag
-	M  Meta `gorm:"embedded;embeddedPrefix:m_"`
+	K  Tag  `gorm:"column:brand"`
+	M  Meta `gorm:"embedded;embeddedPrefix:for_"`
 }
 
 func (Rec) TableName() string { return "recs" }
 
-const ddl = "CREATE TABLE recs (id bigint NOT NULL PRIMARY KEY, a integer NOT NULL, b integer NOT NULL, s text NOT NULL, c integer, d text, k text NOT NULL, m_n integer NOT NULL)"
+const ddl = "CREATE TABLE recs (id bigint NOT NULL PRIMARY KEY, a integer NOT NULL, b integer NOT NULL, s text NOT NULL, c integer, d text, brand text NOT NULL, for_n integer NOT NULL)"
 
-var columns = []string{"id", "a", "b", "s", "c", "d", "k", "m_n"}
+var columns = []string{"id", "a", "b", "s", "c", "d", "brand", "for_n"}
 
 // Row is the reference representation of one table row.
 type Row struct {
@@ -94,8 +94,8 @@ type Row struct {
 	S  string  `json:"s"`
 	C  *int64  `json:"c"`
 	D  *string `json:"d"`
-	K  string  `json:"k"`   // the Tag's V (the database holds "t:"+K)
-	MN int64   `json:"m_n"` // embedded Meta.N
+	K  string  `json:"brand"` // the Tag's V (the database holds "t:"+K)
+	MN int64   `json:"for_n"` // embedded Meta.N
 }
 
 func (r Row) intCol(col string) *int64 {
@@ -108,7 +108,7 @@ func (r Row) intCol(col string) *int64 {
 		return &r.B
 	case "c":
 		return r.C
-	case "m_n":
+	case "for_n":
 		return &r.MN
 	}
 	panic("harness: not an int column: " + col)
@@ -120,13 +120,13 @@ func (r Row) strCol(col string) *string {
 		return &r.S
 	case "d":
 		return r.D
-	case "k":
+	case "brand":
 		return &r.K
 	}
 	panic("harness: not a string column: " + col)
 }
 
-func isStrCol(col string) bool { return col == "s" || col == "d" || col == "k" }
+func isStrCol(col string) bool { return col == "s" || col == "d" || col == "brand" }
 
 // cell renders one column value canonically ("NULL" for SQL NULL).
 func (r Row) cell(col string) string {
@@ -214,9 +214,9 @@ func fromMap(m map[string]interface{}, cols map[string]bool) (Row, error) {
 				out.S = x
 			case "d":
 				out.D = &x
-			case "k": // a map shows the stored form
+			case "brand": // a map shows the stored form
 				if !strings.HasPrefix(x, "t:") {
-					return out, fmt.Errorf("column k holds %q, want the stored form t:...", x)
+					return out, fmt.Errorf("column brand holds %q, want the stored form t:...", x)
 				}
 				out.K = x[2:]
 			}
@@ -235,7 +235,7 @@ func fromMap(m map[string]interface{}, cols map[string]bool) (Row, error) {
 			out.B = x
 		case "c":
 			out.C = &x
-		case "m_n":
+		case "for_n":
 			out.MN = x
 		}
 	}
@@ -370,8 +370,15 @@ func (a Atom) eval(r Row) bool {
 // sql renders the atom as a raw template and its arguments.
 func (a Atom) sql() (string, []interface{}) {
 	var args []interface{}
+	strs := a.S
+	if a.Col == "brand" { // the column holds the stored form of the Tag
+		strs = make([]string, len(a.S))
+		for i, s := range a.S {
+			strs[i] = "t:" + s
+		}
+	}
 	if isStrCol(a.Col) {
-		for _, s := range a.S {
+		for _, s := range strs {
 			args = append(args, s)
 		}
 	} else {
@@ -386,7 +393,7 @@ func (a Atom) sql() (string, []interface{}) {
 		return a.Col + " IS NOT NULL", nil
 	case "in":
 		if isStrCol(a.Col) {
-			return a.Col + " IN ?", []interface{}{append([]string(nil), a.S...)}
+			return a.Col + " IN ?", []interface{}{append([]string(nil), strs...)}
 		}
 		return a.Col + " IN ?", []interface{}{append([]int64(nil), a.I...)}
 	case "between":
@@ -694,10 +701,10 @@ func (c Case) mask(r Row) Row {
 	if sel["d"] {
 		out.D = r.D
 	}
-	if sel["k"] {
+	if sel["brand"] {
 		out.K = r.K
 	}
-	if sel["m_n"] {
+	if sel["for_n"] {
 		out.MN = r.MN
 	}
 	return out
@@ -860,9 +867,12 @@ type Case struct {
 	StopAt int `json:"stop_at,omitempty"`
 	// Scopes: functions handed to Scopes(...) (they run inside the finisher).
 	Scopes []Scope `json:"scopes,omitempty"`
+	// Expr "dup": Select("*, s || '!' AS s"): the result carries the column name s twice with
+	// different values. DupLast (set by checkCase, not generated) is the reading the reference uses.
+	DupLast bool `json:"-"`
 	// Expr: "" | where | select: the chain carries abs(b), which SQLite cannot
 	// evaluate for the smallest 64 bit integer ("integer overflow", raised when
-	// that row is reached): Where("abs(b) >= ?", 0) / Select("id, a, abs(b) AS b, s, c, d, k, m_n").
+	// that row is reached): Where("abs(b) >= ?", 0) / Select("id, a, abs(b) AS b, s, c, d, brand, for_n").
 	Expr string `json:"expr"`
 	// Reuse: "" | session | context: the finished chain is made reusable with
 	// Session(&gorm.Session{}) / WithContext(ctx) before any finisher is called.
@@ -1089,6 +1099,17 @@ func newReference(c Case) *reference {
 	})
 	r.window = window(r.sorted, r.offset, r.limit)
 	r.keyWin = window(r.matched, r.offset, r.limit)
+	if c.Expr == "dup" && c.DupLast {
+		for id, row := range r.byID {
+			row.S += "!"
+			r.byID[id] = row
+		}
+		for _, list := range [][]Row{r.matched, r.sorted} { // window and keyWin are slices of these two
+			for i := range list {
+				list[i].S += "!"
+			}
+		}
+	}
 	if c.selected() != nil {
 		// what is delivered holds the selected columns only (filtering and sorting saw all of them)
 		for id, row := range r.byID {
@@ -1292,7 +1313,9 @@ func (k *runner) chain(src string, inline bool) *gorm.DB {
 	case "where":
 		db = db.Where("abs(b) >= ?", 0)
 	case "select":
-		db = db.Select("id, a, abs(b) AS b, s, c, d, k, m_n")
+		db = db.Select("id, a, abs(b) AS b, s, c, d, brand, for_n")
+	case "dup":
+		db = db.Select("*, s || '!' AS s")
 	}
 	db = applyOrder(db, k.c.Order)
 	if !k.c.CallsFirst {
@@ -1763,34 +1786,34 @@ func (k *runner) pluckPaths() {
 	}
 	{ // custom Scanner element type
 		var v []Tag
-		tx := k.chain(ps, false).Pluck("k", &v)
+		tx := k.chain(ps, false).Pluck("brand", &v)
 		got := make([]string, len(v))
 		for i, x := range v {
 			got[i] = strconv.Quote(x.V)
 		}
-		check("k", "[]Tag", tx, got)
+		check("brand", "[]Tag", tx, got)
 	}
 	{ // the same column into strings: the stored form
 		var v []string
-		tx := k.chain(ps, false).Pluck("k", &v)
+		tx := k.chain(ps, false).Pluck("brand", &v)
 		got := make([]string, len(v))
 		for i, x := range v {
 			if !strings.HasPrefix(x, "t:") {
-				k.failf("Pluck(\"k\", &[]string): value %d is %q, want the stored form t:...", i, x)
+				k.failf("Pluck(\"brand\", &[]string): value %d is %q, want the stored form t:...", i, x)
 				return
 			}
 			got[i] = strconv.Quote(x[2:])
 		}
-		check("k", "[]string", tx, got)
+		check("brand", "[]string", tx, got)
 	}
 	{ // column of an embedded struct
 		var v []int
-		tx := k.chain(ps, false).Pluck("m_n", &v)
+		tx := k.chain(ps, false).Pluck("for_n", &v)
 		got := make([]string, len(v))
 		for i, x := range v {
 			got[i] = itoa(int64(x))
 		}
-		check("m_n", "[]int", tx, got)
+		check("for_n", "[]int", tx, got)
 	}
 	{
 		var v []sql.NullString
@@ -2510,7 +2533,7 @@ func (k *runner) extraPaths() {
 		}
 		k.expectRef(ref, "Raw(...).Scan(&[]map)", tx, got, len(ref.window), true)
 		var mapped []Rec
-		tx = k.rootDB().Raw("SELECT id, a, b, s AS label, c, d, k, m_n FROM recs WHERE a >= ? ORDER BY id", min).
+		tx = k.rootDB().Raw("SELECT id, a, b, s AS label, c, d, brand, for_n FROM recs WHERE a >= ? ORDER BY id", min).
 			MapColumns(map[string]string{"label": "s"}).Scan(&mapped)
 		k.expectRef(ref, "Raw(... s AS label ...).MapColumns(label->s).Scan(&[]Rec)", tx, recsToRows(mapped), len(ref.window), true)
 		if k.fail != "" {
@@ -2551,7 +2574,7 @@ func insertRows(d *testdb.DB, rows []Row) error {
 		return nil
 	}
 	var sb strings.Builder
-	sb.WriteString("INSERT INTO recs (id,a,b,s,c,d,k,m_n) VALUES ")
+	sb.WriteString("INSERT INTO recs (id,a,b,s,c,d,brand,for_n) VALUES ")
 	args := make([]interface{}, 0, 8*len(rows))
 	for i, r := range rows {
 		if i > 0 {
@@ -2572,7 +2595,30 @@ func insertRows(d *testdb.DB, rows []Row) error {
 }
 
 // checkCase evaluates one case; it returns "" or the description of the violation.
+// checkCase evaluates one case. A case whose select list repeats a column name
+// (Expr "dup") is judged as a differential: which occurrence of the name a
+// destination reports is not stated anywhere, but every read path must report the
+// same one - the case passes if all paths fit "the last occurrence" or all paths fit
+// "the first occurrence".
 func checkCase(c Case) (violation string, harnessErr error) {
+	if c.Expr != "dup" {
+		return checkOnce(c)
+	}
+	c.DupLast = true
+	last, err := checkOnce(c)
+	if err != nil || last == "" {
+		return last, err
+	}
+	c.DupLast = false
+	first, err := checkOnce(c)
+	if err != nil || first == "" {
+		return first, err
+	}
+	return "the read paths do not agree on the column name that occurs twice in the result: reading it as the last occurrence: " + last +
+		" || reading it as the first occurrence: " + first, nil
+}
+
+func checkOnce(c Case) (violation string, harnessErr error) {
 	var opts testdb.Options
 	switch c.Config {
 	case "queryfields":
@@ -2612,7 +2658,7 @@ func (k *runner) run() string {
 	switch {
 	case k.c.Mode == "batch":
 		steps = []func(){k.batchPaths}
-	case k.c.Expr == "select":
+	case k.c.Expr == "select" || k.c.Expr == "dup":
 		// Pluck would take the six selected columns: not a Pluck; the expression is plucked instead
 		steps = []func(){k.rowsPaths, k.findPaths, k.scanPaths, k.countPath, k.singlePaths, k.batchPaths}
 	case k.c.Expr != "":
@@ -2685,6 +2731,9 @@ func classify(c Case, r *reference) (bool, []string) {
 	}
 	if c.Or != nil {
 		cl = append(cl, "cond:or-branch")
+	}
+	if c.Expr == "dup" {
+		cl = append(cl, "columns:duplicate-name")
 	}
 	for _, k := range c.Calls {
 		if k.Kind == "clause" {
@@ -2965,7 +3014,7 @@ func genRowsN(rt *rapid.T, minSize, maxSize int) []Row {
 			B:  int64(rapid.IntRange(-2, 6).Draw(rt, "b")),
 			S:  rapid.SampledFrom(strPool).Draw(rt, "s"),
 			K:  rapid.SampledFrom(dPool).Draw(rt, "k"),
-			MN: int64(rapid.IntRange(0, 5).Draw(rt, "m_n"))}
+			MN: int64(rapid.IntRange(0, 5).Draw(rt, "for_n"))}
 		if rapid.IntRange(0, 3).Draw(rt, "c-null") != 0 {
 			v := int64(rapid.IntRange(0, 3).Draw(rt, "c"))
 			r.C = &v
@@ -2990,6 +3039,8 @@ func intRange(col string, maxID int64) (int, int) {
 		return 0, 4
 	case "b":
 		return -2, 6
+	case "for_n":
+		return 0, 5
 	}
 	return 0, 3 // c
 }
@@ -3010,7 +3061,7 @@ func genAtom(rt *rapid.T, maxID int64, ops []string, cols []string) Atom {
 	for i := 0; i < n; i++ {
 		if isStrCol(col) {
 			pool := strPool
-			if col == "d" {
+			if col == "d" || col == "brand" {
 				pool = dPool
 			}
 			a.S = append(a.S, rapid.SampledFrom(pool).Draw(rt, "sv"))
@@ -3030,7 +3081,9 @@ func genAtom(rt *rapid.T, maxID int64, ops []string, cols []string) Atom {
 	return a
 }
 
-var allCols = []string{"id", "a", "a", "b", "s", "c", "d"}
+// raw conditions also name for_n and brand: identifiers that contain the letters OR / AND
+// (the AND/OR detection of raw SQL must not be fooled by them)
+var allCols = []string{"id", "a", "a", "b", "s", "c", "d", "for_n", "for_n", "brand"}
 var rawOps = []string{"=", "<>", "<", "<=", ">", ">=", ">=", "in", "between", "isnull", "notnull"}
 
 func distinctCols(rt *rapid.T, n int) []string {
@@ -3172,6 +3225,9 @@ func genCase(rt *rapid.T) Case {
 	}
 	c.StopAt = rapid.SampledFrom([]int{0, 0, 0, 1, 2, 3}).Draw(rt, "stop-at")
 	c.CallbackWrites = rapid.SampledFrom([]string{"", "delete", "delete"}).Draw(rt, "callback-writes")
+	if rapid.IntRange(0, 7).Draw(rt, "duplicate-column") == 0 {
+		c.Expr, c.ColMode, c.Cols = "dup", "", nil
+	}
 	if len(c.Conds) == 1 && rapid.IntRange(0, 2).Draw(rt, "or-branch") == 0 {
 		or := genCond(rt, maxID)
 		c.Or = &or
